@@ -358,6 +358,16 @@ def check(run):
                     ["evaluate_basis", "overlap", "kinetic", "point_charge", "moment"])
         tensor_case(run, specs, env, cayley(rng), t, "orthogonal+translation")
         run.count("tight shells moved 10-25 bohr from the origin")
+    # screened overlap: whether a pair is dropped depends on the distance only, not on how the separation is spread over the axes —
+    # diffuse shells 5.5 - 8 bohr apart along an axis, a face diagonal and a body diagonal (cutoff about 9 bohr at 1e-8), rotated
+    for k, d0 in enumerate(([6.0, 0.0, 0.0], [0.0, 4.5, 4.5]) if quick else ([6.0, 0.0, 0.0], [0.0, 4.5, 4.5], [0.0, 0.0, 7.5], [3.5, 3.5, 3.5], [5.0, 0.0, 5.0])):
+        specs = [rand_shell(rng, (i + k) % 2, [], nprim=1 + i % 2, nseg=1, exp_lo=0.4, exp_hi=0.5, sph=bool((i + k) % 2)).copy(via_update=False) for i in range(2)]
+        c0 = [0.25, -0.5, 0.125]
+        specs = [specs[0].copy(center=c0), specs[1].copy(center=[a + b for a, b in zip(c0, d0)])]
+        env = pf.default_env(rng, specs)
+        motion_case(run, specs, env, cayley(rng), np.array([0.5, 0.25, -1.0]), "orthogonal+translation", ["overlap(tol_screen=1e-8)", "overlap"])
+        motion_case(run, specs, env, sp[(5 * k + 3) % len(sp)], np.zeros(3), "signed-permutation", ["overlap(tol_screen=1e-8)"])
+        run.count("screened overlap of diffuse shells 5.5 - 8 bohr apart")
     for l in range(5 if quick else 8):
         right_matrix_case(run, rng, l)
     # one-electron integrals of d / f pairs on two centres in general position (the horizontal recursions reach b_z >= 2 only there)
